@@ -28,6 +28,12 @@ CHECKS.update({
             "As C08."),
 })
 
+CHECKS.update({
+    "C16": ("exploration", "p3", "TLA+ post-condition (spec/Preschedule.tla) evaluated by TLC on every (job DAG, precompute(DAG)) pair; the DAG domain is enumerated by TLC from the same specification",
+            "Exhaustive over the bounded domain: every job DAG with <= 4 (thorough: 5) tasks incl. multi-edges and two-output tasks is run through the real precompute and judged clause by clause by TLC.",
+            "Bounded domain; TLC as generator and oracle; the python fallback of nearest_common_descendant (coptrs is not installed)."),
+})
+
 NOT_YET = {
 }
 
@@ -56,6 +62,8 @@ def main():
         "engines": [
             {"name": "cascade", "path": "harness/cascade_engine.py", "serves_properties": ["C01", "C02", "C03", "C04"],
              "kind_free_text": "TLC model checking of spec/Cascade.tla per instance + recorded executions of the real controller validated by TLC against spec/CascadeTrace.tla"},
+            {"name": "p3", "path": "harness/p3.py", "serves_properties": ["C16"],
+             "kind_free_text": "enumerate / execute / validate: TLC generates the cases from the spec's domain, the harness runs the real function, TLC evaluates the spec's post-condition"},
             {"name": "shm", "path": "harness/shm_engine.py", "serves_properties": ["C08", "C09"],
              "kind_free_text": "TLC model checking of spec/Shm.tla + TLC-generated behaviours replayed into the real Manager"},
         ],
